@@ -4,6 +4,7 @@ import GqlVerif.Proofs.C17Fuel
 import GqlVerif.Proofs.C17FuelSpec
 import GqlVerif.Proofs.SerdeFuelWitness
 import GqlVerif.Proofs.SerdeFuelCodegen
+import GqlVerif.Proofs.AcyclicModulesClasses
 open GqlVerif.C17
 #print axioms search_guarded_eq
 #print axioms search_guarded_total
@@ -75,3 +76,32 @@ open GqlVerif.C17
 #print axioms GqlVerif.SerdeFuel.spread_cycle_module_not_acyclic
 #print axioms GqlVerif.SerdeFuel.e2e_example_modules_ok
 #print axioms GqlVerif.SerdeFuel.e2e_example_modules_acyclic
+-- Acyclic (moduleEnv …) from the document: same-level spread graph acyclic; no per-module check for the end-to-end classes (Proofs/AcyclicModules*.lean)
+#print axioms GqlVerif.AcyclicM.calc_jumps
+#print axioms GqlVerif.AcyclicM.used_fragments_reachable
+#print axioms GqlVerif.AcyclicM.modFacts
+#print axioms GqlVerif.AcyclicM.acyclic_of_facts
+#print axioms GqlVerif.AcyclicM.module_acyclic_of_reachRanked
+#print axioms GqlVerif.AcyclicM.graphCheck_iff
+#print axioms GqlVerif.AcyclicM.sameLevelCheck_iff
+#print axioms GqlVerif.AcyclicM.spreadCheck_iff
+#print axioms GqlVerif.AcyclicM.module_acyclic
+#print axioms GqlVerif.AcyclicM.module_acyclic'
+#print axioms GqlVerif.AcyclicM.module_envOK
+#print axioms GqlVerif.AcyclicM.module_de_never_out_of_fuel
+#print axioms GqlVerif.AcyclicM.module_de_fuel_indep
+#print axioms GqlVerif.AcyclicM.module_ser_never_out_of_fuel
+#print axioms GqlVerif.AcyclicM.module_roundtrip_never_out_of_fuel
+#print axioms GqlVerif.AcyclicM.module_denied_key_ignored
+#print axioms GqlVerif.AcyclicM.treeOp_reachRanked
+#print axioms GqlVerif.AcyclicM.variantOp_reachRanked
+#print axioms GqlVerif.AcyclicM.fragmentOp_reachRanked
+#print axioms GqlVerif.AcyclicM.recFragmentOp_reachRanked
+#print axioms GqlVerif.AcyclicM.class_module_acyclic
+#print axioms GqlVerif.AcyclicM.class_module_envOK
+#print axioms GqlVerif.AcyclicM.class_de_never_out_of_fuel
+#print axioms GqlVerif.AcyclicM.class_de_fuel_indep
+#print axioms GqlVerif.AcyclicM.class_roundtrip_never_out_of_fuel
+#print axioms GqlVerif.AcyclicM.spread_cycle_not_sameLevelAcyclic
+#print axioms GqlVerif.AcyclicM.gCtx_sameLevelRanked
+#print axioms GqlVerif.AcyclicM.mix_spreadAcyclic_only
